@@ -219,14 +219,12 @@ Definition notify (st : sstate) (job : string) (new : status) (fls : list free_l
       let s1 := mkstate (replace job (mkalloc new (a_locs a) (a_hw a)) (jobs st)) (locjobs st) (hwloc st) in
       s2 <- (if releases prev new then free_levels 0 (a_locs a) (a_hw a) fls s1 else Ok s1) ;;
       if status_eqb new Rollback then
-        let lj := fold_left (fun m c => match c with
-                                        | [] => m
-                                        | (d, nm) :: _ =>
-                                            match lookup (d ++ "/" ++ nm) m with
-                                            | Some js => replace (d ++ "/" ++ nm) (remove_first job js) m
-                                            | None => m
-                                            end
-                                        end) (a_locs a) (locjobs s2) in
+        (* the job leaves the job list of every stacked level of every location it was allocated on *)
+        let lj := fold_left (fun m dn =>
+                               match lookup (fst dn ++ "/" ++ snd dn) m with
+                               | Some js => replace (fst dn ++ "/" ++ snd dn) (remove_first job js) m
+                               | None => m
+                               end) (concat (a_locs a)) (locjobs s2) in
         Ok (mkstate (replace job (mkalloc new [] (a_hw a)) (jobs s2)) lj (hwloc s2))
       else Ok s2
   end.
